@@ -3,6 +3,8 @@ package crdt
 import (
 	"context"
 
+	"github.com/ipfs/ipfs-cluster/pstoremgr"
+
 	peer "github.com/libp2p/go-libp2p-core/peer"
 	pubsub "github.com/libp2p/go-libp2p-pubsub"
 	pubsub_pb "github.com/libp2p/go-libp2p-pubsub/pb"
@@ -21,14 +23,26 @@ func VrfC07Validator() {
 	ctx, cancel := context.WithCancel(context.Background())
 	css := &Consensus{ctx: ctx, cancel: cancel, config: cfg, host: h, rpcReady: make(chan struct{}, 1),
 		pubsub: &pubsub.PubSub{}}
-	css.peerManager = nil
+	css.peerManager = pstoremgr.New(ctx, h, "")
+	// the configured list: any subset of the other peers, in order, with this
+	// peer's own ID nowhere, first, in the middle or last (a cluster-wide shared
+	// list names every member) - setup() does the trusting
 	trusted := make([]bool, len(vrfTrustPeers))
+	selfAt := vrf_choice("own_id_in_the_list", 4) // 0: not listed, 1: first, 2: after the first other peer, 3: last
+	if selfAt == 1 {
+		cfg.TrustedPeers = append(cfg.TrustedPeers, vrfTrustPeers[0])
+	}
 	for i := 1; i < len(vrfTrustPeers); i++ {
 		if vrf_choice("configured", 2) == 1 {
-			// (what Trust() does, without the libp2p peerstore side effects)
-			css.trustedPeers.Store(vrfTrustPeers[i], struct{}{})
+			cfg.TrustedPeers = append(cfg.TrustedPeers, vrfTrustPeers[i])
 			trusted[i] = true
 		}
+		if selfAt == 2 && i == 1 {
+			cfg.TrustedPeers = append(cfg.TrustedPeers, vrfTrustPeers[0])
+		}
+	}
+	if selfAt == 3 {
+		cfg.TrustedPeers = append(cfg.TrustedPeers, vrfTrustPeers[0])
 	}
 	css.rpcReady <- struct{}{}
 	css.setup() // registers the validator, then stops at the (unmodelled) broadcaster
@@ -39,5 +53,8 @@ func VrfC07Validator() {
 	vrf_note_int("signer", signer)
 	vrf_note_int("forwarded_by", source)
 	vrf_assert(ok == vrf_or(cfg.TrustAll, vrf_or(signer == 0, trusted[signer])), "C07.validator.iff-signer-trusted")
+	for i, p := range vrfTrustPeers {
+		vrf_assert(css.IsTrustedPeer(ctx, p) == vrf_or(cfg.TrustAll, vrf_or(i == 0, trusted[i])), "C07.validator.setup-trusts-the-configured-peers")
+	}
 	vrf_reach("C07.validator.end")
 }
